@@ -28,7 +28,20 @@ def _keys_as(keys, how):
         return map(lambda k: k, list(keys))
     if how == "dictview":
         return {k: None for k in keys}.keys()
+    if how == "wrapper":
+        return OneShot(keys)
     raise ValueError(how)
+
+
+class OneShot:
+    """an Iterable that can be gone through once but is not its own iterator: every iter() of it gives the same inner iterator
+    (a cursor over a work list, a wrapper around a stream)"""
+
+    def __init__(self, keys):
+        self._it = iter(list(keys))
+
+    def __iter__(self):
+        return self._it
 
 
 _STORE_OPT = [("expire", 0), ("noreply", None), ("flags", None)]
